@@ -24,6 +24,7 @@ func (w *Watchable[T]) Set(t T) {
 		c: make(chan struct{}),
 	}
 	oldInner := w.p.Swap(newInner)
+	verifYield("Watchable.Set.swapped")
 	if oldInner != nil {
 		close(oldInner.c)
 	}
